@@ -113,6 +113,7 @@ class Interp:
     def __init__(self, path: Path, reg: Any):
         self.p = path
         self.reg = reg
+        ops.OBJ_LEN_HOOK = self._obj_len
         self.call_depth = 0
         self.inlined: set = set()
         self.used_contracts: set = set()
@@ -260,6 +261,10 @@ class Interp:
                 f.locals.pop(t.id, None)
             else:
                 raise Unsupported("del of non-name")
+
+    def _obj_len(self, v: Any) -> Any:
+        fn = _static_attr(v.cls, "__len__")
+        return self.call_value(BoundMethod(fn, v, _defining_class(v.cls, "__len__")), [], {}, None, self._cur_frame)
 
     def st_If(self, s: ast.If, f: Frame) -> None:
         c = self.ev(s.test, f)
@@ -653,10 +658,13 @@ class Interp:
     # expressions
     # =========================================================================================
     def ev(self, n: ast.expr, f: Frame) -> Any:
+        self._cur_frame = f
         m = getattr(self, "ex_" + type(n).__name__, None)
         if m is None:
             raise Unsupported(f"expression {type(n).__name__} at line {getattr(n, 'lineno', '?')}")
-        return m(n, f)
+        r = m(n, f)
+        self._cur_frame = f
+        return r
 
     def ex_Constant(self, n: ast.Constant, f: Frame) -> Any:
         return n.value
